@@ -169,6 +169,12 @@ def attribute(ck, pid, traces, fails, extra_props=()):
     """Report failures whose clause belongs to `pid`. Returns counters."""
     counters = {"clause_failures_this_property": 0, "clause_failures_other_properties": 0, "spec_deviations": 0}
     dev = {}
+    # an exception whose call site is a recorded finding is decided under the properties that list it; a run of ANOTHER property's
+    # check that dies of it is out of that check's scope (counted), whatever clause tables would otherwise attribute the failure to
+    known_sites = {}
+    for k in core.load_known().get("findings", []):
+        if str(k.get("key", "")).startswith("raised:"):
+            known_sites.setdefault(k["key"], set()).add(k["property"])
     for f in fails:
         tr = traces[f["tid"] - 1]
         ev = tr["events"][f["l"] - 1]
@@ -189,6 +195,12 @@ def attribute(ck, pid, traces, fails, extra_props=()):
                 props.add("C14")  # the kernel must receive the labels the resampler assigned (as well as the same records)
             if tr["meta"].get("resumed") and cl in RESUME_CLAUSES:
                 props.add("C08")  # a resumed run continues numbering / counting / schedule and ends with the same postconditions
+            if cl == "NoRaise" and ev.get("site"):
+                kk = f"raised:{ev['site']}:{ev.get('exc')}"
+                if kk in known_sites and pid not in known_sites[kk]:
+                    counters["clause_failures_other_properties"] += 1
+                    counters["runs_ended_by_a_finding_recorded_under_other_properties"] = counters.get("runs_ended_by_a_finding_recorded_under_other_properties", 0) + 1
+                    continue
             if not props:
                 counters["spec_deviations"] += 1
                 dev[cl] = dev.get(cl, 0) + 1
